@@ -13,7 +13,7 @@
    Two decoders, field by field as the two readers of the code (hll_sketch::deserialize(bytes, len) and (istream&)) WITH the
    checks of the repaired readers (fixes/11_hll_reader_bounds.patch): lg_k in 4..21 (set: 8..21), list count <= 8, set count
    within the 3/4 load of the largest table, updatable set table <= 2^lg_k cells, num_at_cur_min <= k, aux only for HLL_4,
-   aux count <= k, aux table lg <= lg_k + 1.
+   aux count <= k, aux table lg <= lg_k + 1, every count = the number of entries actually present (no empty coupon / pair in a compact image).
    kxq0 / kxq1 are carried exactly (units 2^-31 / 2^-63) by HllDefs; their binary64 patterns are computed here ([kbits]).
    hipAccum is not modelled: its pattern is an input of the encoder (read from the object by the harness). *)
 From Coq Require Import ZArith NArith List Bool.
@@ -154,6 +154,8 @@ Definition dec_list (stream : bool) (bs : list N) : option (dstate * list N) :=
               let arr :=
                 if stream then pad_to 8 cps
                 else (if empty then zerosN 8 else pad_to 8 (firstn (N.to_nat cnt) cps)) in
+              (* the count must be the number of coupons present *)
+              if negb (lenN (nonzero arr) =? cnt) then None else
               Some ({| d_impl := IList {| l_lgk := lgk; l_ty := ty; l_ooo := ooo; l_cnt := cnt; l_arr := arr |};
                        d_hip := 0; d_k0 := 0; d_k1 := 0 |}, r')
           end
@@ -182,8 +184,9 @@ Definition dec_set (stream : bool) (bs : list N) : option (dstate * list N) :=
                 match take (4 * cnt) r with
                 | None => None
                 | Some (cb, r') =>
+                    if existsb (N.eqb 0) (rd32s cb) then None else
                     match insert_all (set_new lgk ty) (rd32s cb) with
-                    | Some s => Some ({| d_impl := ISet s; d_hip := 0; d_k0 := 0; d_k1 := 0 |}, r')
+                    | Some s => if s_cnt s =? cnt then Some ({| d_impl := ISet s; d_hip := 0; d_k0 := 0; d_k1 := 0 |}, r') else None
                     | None => None
                     end
                 end
@@ -192,6 +195,7 @@ Definition dec_set (stream : bool) (bs : list N) : option (dstate * list N) :=
                 match take (4 * 2 ^ lg) r with
                 | None => None
                 | Some (cb, r') =>
+                    if negb (lenN (nonzero (rd32s cb)) =? cnt) then None else
                     Some ({| d_impl := ISet {| s_lgk := lgk; s_ty := ty; s_ooo := false; s_lg := lg; s_cnt := cnt; s_arr := rd32s cb |};
                              d_hip := 0; d_k0 := 0; d_k1 := 0 |}, r')
                 end
@@ -210,6 +214,7 @@ Definition dec_aux (stream compact : bool) (lgk lgbyte cnt : N) (r : list N) : o
         match take (4 * cnt) r with
         | None => None
         | Some (cb, r') =>
+            if existsb (N.eqb 0) (rd32s cb) then None else
             match aux_add_pairs lgk (aux_empty lg) (rd32s cb) with
             | Some a => if a_cnt a =? cnt then Some (Some a, r') else None
             | None => None
@@ -226,6 +231,16 @@ Definition dec_aux (stream compact : bool) (lgk lgbyte cnt : N) (r : list N) : o
         | None => None
         end
     end.
+
+(* the aux area after the register array: the aux map (HLL_4 with exceptions), or the unused area of an updatable HLL_4
+   image: the stream reader consumes it, the bytes reader does not look at it (reserved padding) *)
+Definition dec_aux_area (stream compact : bool) (ty : tgt) (lgk lgbyte auxcnt : N) (r1 : list N) : option (option auxmap * list N) :=
+  if 0 <? auxcnt then dec_aux stream compact lgk lgbyte auxcnt r1
+  else if tgt_eqb ty T4 && negb compact then
+    let lgb := if 0 <? lgbyte then lgbyte else lg_aux_arr_ints lgk in
+    if stream then match take (4 * 2 ^ lgb) r1 with Some (_, r2) => Some (None, r2) | None => None end
+    else Some (None, skipn (N.to_nat (4 * 2 ^ lgb)) r1)
+  else Some (None, r1).
 
 Definition dec_hll (stream : bool) (bs : list N) : option (dstate * list N) :=
   match take 40 bs with
@@ -253,15 +268,7 @@ Definition dec_hll (stream : bool) (bs : list N) : option (dstate * list N) :=
           match take (arr_bytes ty lgk) r with
           | None => None
           | Some (ab, r1) =>
-              let oaux :=
-                if 0 <? auxcnt then dec_aux stream compact lgk (getN h 4) auxcnt r1
-                else if tgt_eqb ty T4 && negb compact then
-                  (* an updatable HLL_4 image carries an unused aux area: the stream reader consumes it, the bytes reader
-                     does not look at it (reserved padding) *)
-                  let lgb := if 0 <? getN h 4 then getN h 4 else lg_aux_arr_ints lgk in
-                  if stream then match take (4 * 2 ^ lgb) r1 with Some (_, r2) => Some (None, r2) | None => None end
-                  else Some (None, skipn (N.to_nat (4 * 2 ^ lgb)) r1)
-                else Some (None, r1) in
+              let oaux := dec_aux_area stream compact ty lgk (getN h 4) auxcnt r1 in
               match oaux with
               | None => None
               | Some (ax, r2) =>
@@ -292,7 +299,8 @@ Definition dec_bytes (bs : list N) : option dstate :=
      20 r compact          E hip : R = the image (serialize_compact / serialize_updatable of r)
      21 r2 r compact via   E hip : r2 := deserialize(serialize(r)) through the bytes (via 0) or stream (via 1) reader; R 1 / -1
      22 r2 via bytes             : r2 := deserialize(bytes); R = 1 (bytes) | 1 consumed (stream) | -1
-     23 r                  E hip k0 k1 : codec-level dump of r (see [dump]) *)
+     23 r                  E hip k0 k1 : codec-level dump of r (see [dump])
+     24 lgk ty coupons           : harness only: F = updatable image of a fresh sketch fed the coupons; R = 1 *)
 Definition ctab := list (Z * (N * N * N)).
 Definition cstate : Type := list (Z * reg) * ctab.
 
@@ -365,6 +373,7 @@ Definition cstep (cs : cstate) (o e : line) : cstate * outline :=
       | Some x => (cs, (dump (r_impl x) (doubles_of t r (zN (hd 0%Z e)) (r_impl x)), []))
       | None => (cs, (refused, []))
       end
+  | 24%Z :: _ => (cs, (ok, []))                        (* image of a scratch sketch, read by the oracle only (F line) *)
   | _ =>
       let '(s', out) := step s o e in
       ((s', fold_left (fun t r => reg_del t r) (regs_of_update o) t), out)
